@@ -290,10 +290,10 @@ def r05_4(run, model):
 
 
 def run(run, model):
-    r05_1(run, model)
-    r05_2(run, model)
-    r05_3(run, model)
-    r05_4(run, model)
+    run.try_rule(r05_1, model)
+    run.try_rule(r05_2, model)
+    run.try_rule(r05_3, model)
+    run.try_rule(r05_4, model)
     run.assume("binders are introduced only by resolve_pat and resolve_closure_param (checked: these are the only callers of ResolveLocalEnv::add besides function parameters)")
     f_add = [c for f in model.fns(NR) for c in S.calls(f.body, "add") if c["k"] == "MethodCall" and f.impl == "NameResolution"]
     owners = sorted({f.name for f in model.fns(NR) if f.impl == "NameResolution" and any(c["k"] == "MethodCall" and S.is_path(c["recv"]) for c in S.calls(f.body, "add"))})
